@@ -162,6 +162,17 @@ def _block(stmts, fn_counts):
     stmts = list(stmts)
     while i < len(stmts):
         s = stmts[i]
+        # 19. `a, b = (x, y)` with independent sides is `a = x` followed by `b = y`
+        if isinstance(s, ast.Assign) and len(s.targets) == 1 and isinstance(s.targets[0], ast.Tuple) and isinstance(s.value, ast.Tuple) \
+                and len(s.targets[0].elts) == len(s.value.elts) >= 2 and all(isinstance(t_, ast.Name) for t_ in s.targets[0].elts) \
+                and not any(isinstance(x, (ast.Starred, ast.Await, ast.NamedExpr, ast.Yield, ast.YieldFrom)) for x in ast.walk(s.value)):
+            tn = {t_.id for t_ in s.targets[0].elts}
+            if not any(isinstance(x, ast.Name) and x.id in tn for x in ast.walk(s.value)) and len(tn) == len(s.targets[0].elts):
+                seq = [ast.copy_location(ast.Assign(targets=[t_], value=v_), s) for t_, v_ in zip(s.targets[0].elts, s.value.elts)]
+                for x in seq:
+                    ast.fix_missing_locations(x)
+                stmts[i:i + 1] = seq
+                continue
         # 15. a loop over a short display of literals whose body neither breaks nor continues is the body once per literal (only for loops that
         #     came with an expanded helper, or that read attributes by name: reference code keeps its loops, rules name them)
         if isinstance(s, ast.For) and isinstance(s.iter, (ast.Tuple, ast.List)) and 1 <= len(s.iter.elts) <= 4 and isinstance(s.target, ast.Name) \
@@ -710,6 +721,29 @@ class _Desugar(ast.NodeTransformer):
         if isinstance(t, ast.Call) and t.args and not isinstance(t.func, ast.NamedExpr):
             return _Desugar._first_walrus(t.args[0]) if isinstance(t.func, ast.Name) else None
         return None
+
+    _fn_stack = []
+
+    def visit_FunctionDef(self, node):
+        _Desugar._fn_stack.append(node.name)
+        self.generic_visit(node)
+        _Desugar._fn_stack.pop()
+        return node
+
+    visit_AsyncFunctionDef = visit_FunctionDef
+
+    def visit_Return(self, node):
+        # 18. `return A if T else B` is `if T: return A` followed by `return B` (the size-algebra methods keep theirs: they are executed as
+        #     straight-line code with the condition as a guard key)
+        self.generic_visit(node)
+        if isinstance(node.value, ast.IfExp) and (not _Desugar._fn_stack or _Desugar._fn_stack[-1] not in ('encoded_length', 'encode_into')):
+            v = node.value
+            a = ast.copy_location(ast.If(test=v.test, body=[ast.copy_location(ast.Return(value=v.body), node)], orelse=[]), node)
+            b = ast.copy_location(ast.Return(value=v.orelse), node)
+            ast.fix_missing_locations(a)
+            ast.fix_missing_locations(b)
+            return [a, b]
+        return node
 
     def visit_If(self, node):
         self.generic_visit(node)
